@@ -103,6 +103,14 @@ def main(argv=None):
     except HarnessError as e:
         print(f'HARNESS-ERROR property={pid}: {e}', file=sys.stderr)
         status = 2
+    except Exception as e:  # noqa
+        import traceback
+        tb = traceback.format_exc()
+        if common.blames_code_under_test(tb):
+            ctx.stats.merge(common.uncaught_as_violation(e, tb, 'main process'))
+        else:
+            print(f'HARNESS-ERROR property={pid}: {type(e).__name__}: {e}\n{tb}', file=sys.stderr)
+            status = 2
     wall = time.time() - t0
 
     findings = common.load_known_findings()
@@ -133,9 +141,9 @@ def main(argv=None):
                           wall, int(ctx.stats.n.get('violations', 0)))
     brief = {k: cov[k] for k in ('evaluations', 'distinct_nontrivial', 'states', 'transitions', 'exhaustive') if k in cov}
     print(f'{pid} tier={a.tier} seed={seed} wall={wall:.1f}s {brief} violations={ctx.stats.n.get("violations", 0)}')
-    if status:
-        return status
-    return 1 if unknown else 0
+    if unknown:
+        return 1          # a violation was found and reported; a vacuity complaint raised on top of it does not mask it
+    return status
 
 
 if __name__ == '__main__':
